@@ -63,6 +63,12 @@ class LockBusy(SimSignal):
     pass
 
 
+class Abandon(SimSignal):
+    """The drawn interleaving cannot be continued faithfully by the
+    single-threaded simulator (a thread would block at a point that cannot
+    be re-entered); the case is inconclusive."""
+
+
 class Hang(SimSignal):
     """A client is blocked and the system is quiescent."""
 
@@ -335,6 +341,11 @@ class Sim:
         self.workers: dict = {}
         self.managers: dict = {}
         self.inject = None            # line-level plan for the next steps
+        # reverse plans: run a main-thread step at a source line of the
+        # incoming handler of a worker's n-th message
+        self.rinject = None
+        self.worker_recvs: dict = collections.Counter()
+        self.recv_info: list = []     # (worker, n-th message, name)
         self.worker_steps = collections.Counter()
         self.line_events = 0
         self.hooks: list = []         # callables(sim, action) after each action
@@ -606,8 +617,22 @@ class Sim:
                 )
         conn._deliver = item
         n_cancel = len(self.cancel_handled)
+        self.worker_recvs[name] += 1
+        self.recv_info.append((name, self.worker_recvs[name],
+                               mname if item[0] == 'msg' else 'EOF'))
+        rplan = None
+        if self.rinject and item[0] == 'msg':
+            for pl in self.rinject:
+                if pl['worker'] == name and \
+                        pl['recv'] == self.worker_recvs[name]:
+                    rplan = pl
+                    self.rinject.remove(pl)
+                    break
         try:
-            w.recv_incoming()
+            if rplan is None:
+                w.recv_incoming()
+            else:
+                self._traced_recv(w, name, rplan)
         except StopLoop:
             pass
         except ProcessExit:
@@ -724,6 +749,66 @@ class Sim:
             self.line_events = count[0]
             self.trace.append(('inject', name, plan['line'], fired[0],
                                count[0]))
+
+    # -- line-level pre-emption of a worker's incoming handler by its main
+    #    thread
+    def _traced_recv(self, w, name, plan):
+        target = plan['line']
+        count = [0]
+        fired = [False]
+        wfile = wmod.__file__
+        sim = self
+
+        def tracer(frame, event, arg):
+            if frame.f_code.co_filename != wfile:
+                return None
+            if event == 'line':
+                if not fired[0] and count[0] == target:
+                    fired[0] = True
+                    sys.settrace(None)
+                    try:
+                        sim._inject_main(name, frame)
+                    finally:
+                        sys.settrace(tracer)
+                count[0] += 1
+            return tracer
+
+        sys.settrace(tracer)
+        try:
+            w.recv_incoming()
+        finally:
+            sys.settrace(None)
+            self.trace.append(('rinject', name, plan['line'], fired[0],
+                               count[0]))
+
+    def _inject_main(self, name, frame):
+        """Run one main-thread step of worker ``name`` right now (its
+        incoming thread is suspended at ``frame``)."""
+        w = self.workers[name]
+        q = w._ready_task_ids
+        if not (not q.parked or q.q or w._delayed_tasks):
+            return           # the main thread is blocked on the empty queue
+        self.trace.append(('step', name, 'injected@%s:%d' % (
+            frame.f_code.co_name, frame.f_lineno)))
+        saved_inject, self.inject = self.inject, None
+        try:
+            self._worker_step(name)
+        except LockBusy as e:
+            # the main thread would block on a lock the incoming thread
+            # holds.  Waiting for the read-receipt lock at the top of
+            # _get_next_ready_task is re-entrant (nothing happened yet);
+            # anywhere else the step cannot be resumed by this simulator.
+            tb = e.__traceback__
+            inner = None
+            while tb is not None:
+                if tb.tb_frame.f_code.co_filename == wmod.__file__:
+                    inner = tb.tb_frame.f_code.co_name
+                tb = tb.tb_next
+            if inner != '_get_next_ready_task':
+                raise Abandon() from None
+            self.trace[-1] = self.trace[-1] + ('lock-busy',)
+        finally:
+            self.inject = saved_inject
 
     def _inject_incoming(self, name, k, frame):
         """Run the incoming thread for up to k pending messages of worker
